@@ -122,10 +122,10 @@ def stream(ctx, replay_ops=None):
         bound += 1 if nb else 0
         if nb >= 2 and len(samples) < 4 and cid.startswith("d:") and len(ops) < 260:
             samples.append({"ops": ops, "answer_of_both": r})
-    for name, ops, expect in corpus:
-        r = real.get("corpus:" + name, "").rstrip()
-        if expect and r.split("\t")[0] != expect:
-            bad.append(("corpus:" + name, ops, r, f"<recorded verdict of the real code: {expect}>"))
+    for cid, ops, expect in corpus:
+        r = real.get(cid, "").rstrip()
+        if r.split("\t")[0] != expect:
+            bad.append((cid, ops, r, f"<recorded verdict of the real code: {expect}>"))
     if bad:
         bad.sort(key=lambda b: len(b[1]))
         cid, ops, r, m = bad[0]
